@@ -150,6 +150,20 @@ pub fn dispatch(a: &[String]) -> String {
       Ok(n) => n.to_string(),
       Err(e) => format!("ERR {}", e),
     },
+    "model_eval" => {
+      // model_eval <xml> <invocable> <input context>: load, build, evaluate (panics are caught by the caller)
+      match dmntk_model::parse(&a[1]) {
+        Err(e) => format!("PARSE-ERROR {}", e),
+        Ok(defs) => match dmntk_model_evaluator::ModelEvaluator::new(&defs) {
+          Err(e) => format!("BUILD-ERROR {}", e),
+          Ok(me) => {
+            let scope = dmntk_feel::Scope::default();
+            let input = dmntk_feel_evaluator::evaluate_context(&scope, &a[3]).unwrap();
+            format!("VALUE {}", me.evaluate_invocable(&a[2], &input))
+          }
+        },
+      }
+    }
     _ => format!("UNKNOWN-COMMAND {}", a[0]),
   }
 }
